@@ -11,23 +11,25 @@ from . import c07
 
 PROPERTY = 'C08'
 EXPLANATION = (
-    'Decided from source: (C08.1) every annotated parameter of every validated registered function resolves to a '
-    'coercing alias that is a key of the cast table; a bare value class is not converted by validate_args (known '
-    'finding F15); (C08.2) the cast table maps each alias to the cast of its own class, and _validate interpreted '
-    'as written turns witness values into the class of the alias (numeric text -> number, number -> text, 0 -> '
-    'FALSE, natives -> their class); (C08.3) conversion totality over value classes x targets, native types '
-    'registered, blank/boolean number values, and the arithmetic special methods compute on converted operands for '
-    'every pair of operand kinds; (C08.4) function-name canonicalisation on witness spellings (case, _xlfn. '
-    'prefix); (C08.5) registration writes the module-level table; two evaluators constructed (constructor '
-    'interpreted, one world) around a registration: the later one sees the new function, no two evaluators share a '
-    'table object; (C08.6) every module that registers functions is imported by the package; (C08.7) the wrapper '
-    'preserves the signature; (C08.8) =A/B through OP_DIV with a divisor that converts to zero (0, 0.0, "0", "0.0", '
-    '"0e0", FALSE, blank) gives #DIV/0!; (C08.9) every registered function whose parameters are all declared '
-    'numeric, called the way the evaluator calls it: int, float, Number, numeric text plain / decimal / scientific, '
-    'TRUE for 1, FALSE and blank for 0 give the same outcome at every position, non-numeric text gives #VALUE! '
-    '(numpy on floats by IEEE semantics); (C08.10) + - * / and & on every ordered pair of scalar operand kinds '
-    'against the reference ("3"+1=4, TRUE+1=2, blank+1=1, #VALUE!, #DIV/0!, text forms joined).'
-    " (C08.10) + - * / ^ and & on every ordered pair of 14 operand spellings (numpy's integer power modelled with 64-bit semantics); texts that spell a boolean are keyed apart (known finding F42).")
+    'Decided from source: (C08.1) every annotated parameter of every validated registered function resolves to a coercing '
+    'alias that is a key of the cast table; a bare value class is not converted by validate_args (known finding F15); '
+    '(C08.2) the cast table maps each alias to the cast of its own class, and _validate interpreted as written turns '
+    'witness values into the class of the alias (numeric text -> number, number -> text, 0 -> FALSE, natives -> their '
+    'class); (C08.3) conversion totality over value classes x targets, native types registered, blank/boolean number '
+    'values, and the arithmetic special methods compute on converted operands for every pair of operand kinds; (C08.4) '
+    'function-name canonicalisation on witness spellings (case, _xlfn. prefix); (C08.5) registration writes the module-'
+    'level table; two evaluators constructed (constructor interpreted, one world) around a registration: the later one sees'
+    ' the new function, no two evaluators share a table object; (C08.6) every module that registers functions is imported '
+    'by the package; (C08.7) a witness workbook evaluated as written: omitted trailing arguments take the declared '
+    'defaults, arguments keep their order, variable argument lists are passed in full, delayed parameters receive '
+    'unevaluated expressions, too many arguments are an error; (C08.8) =A/B through OP_DIV with a divisor that converts to '
+    'zero (0, 0.0, "0", "0.0", "0e0", FALSE, blank) gives #DIV/0!; (C08.9) every registered function whose parameters are '
+    'all declared numeric, called the way the evaluator calls it: int, float, Number, numeric text plain / decimal / '
+    'scientific, TRUE for 1, FALSE and blank for 0 give the same outcome at every position, non-numeric text gives #VALUE! '
+    '(numpy on floats by IEEE semantics); (C08.10) + - * / and & on every ordered pair of scalar operand kinds against the '
+    'reference ("3"+1=4, TRUE+1=2, blank+1=1, #VALUE!, #DIV/0!, text forms joined). (C08.10) + - * / ^ and & on every '
+    "ordered pair of 14 operand spellings (numpy's integer power modelled with 64-bit semantics); texts that spell a "
+    'boolean are keyed apart (known finding F42).')
 NOT_DECIDED = 'equality of results across spellings at the value level'
 TRUSTED = ['typing.NewType/Union semantics of the annotation aliases', 'functools.wraps makes inspect.signature see the wrapped signature']
 
